@@ -12,7 +12,7 @@ inductive Data where
 
 inductive Err where
   | typeName        -- TypeNameError
-  | unsupported     -- known head with an arity its codec rejects (DecodeError / EncodeError)
+  | unsupported     -- decoding reached a known head with an arity its codec rejects (DecodeError)
   | decode (what : String)   -- strict-read failures of the model (short / utf8 / index): outside the quantifier
   | encode          -- EncodeError (value does not fit the type, or unknown codec while encoding a real value)
   deriving Repr, DecidableEq
@@ -26,7 +26,9 @@ structure Table where
   deriving Repr, Inhabited
 
 /-- `Serialization.decode`: trailing bytes are ignored; an unknown codec met
-while decoding turns the whole table into `UnknownData(all bytes)`. -/
+while decoding turns the whole table into `UnknownData(all bytes)`; a known
+head with a rejected arity met while decoding is a DecodeError.
+(`tyOfTree` is never `none`: that arm is dead, see `tyOfTree_isSome`.) -/
 def decodeTop (lookup : Bytes → Option Nat) (name : String) (bs : Bytes) : Except Err Data :=
   match TypeName.parseType name.toList with
   | none => .error .typeName
@@ -40,8 +42,11 @@ def decodeTop (lookup : Bytes → Option Nat) (name : String) (bs : Bytes) : Exc
       | .short => .error (.decode "short")
       | .badUtf8 => .error (.decode "utf8")
       | .badIndex => .error (.decode "index")
+      | .badArity => .error .unsupported
 
-/-- `Serialization.encode`: `UnknownData` is written verbatim whatever the type name says. -/
+/-- `Serialization.encode`: `UnknownData` is written verbatim whatever the type name says.
+Reaching a head without codec or a known head with a rejected arity is an
+EncodeError like any other misfit (`encode = none`). -/
 def encodeTop (nodeUuid : Nat → Bytes) (name : String) : Data → Except Err Bytes
   | .unknownData bs => .ok bs
   | .val v =>
